@@ -1,5 +1,5 @@
 #!/bin/bash
-# fixsweep.sh: every repaired defect F1..F20 is detected again when its fix is reverted
+# fixsweep.sh: every repaired defect F1..F20, F23 is detected again when its fix is reverted
 cd /verif
 tools/fixrevert.sh d6a87fc C01
 tools/fixrevert.sh 177e609 C03 C12
@@ -13,7 +13,8 @@ tools/fixrevert.sh 5aff920 C16
 tools/fixrevert.sh e100ca7 C17
 tools/fixrevert.sh 1e9c587 C18
 tools/fixrevert.sh 42ad752+b915926 C05
-tools/fixrevert.sh 7b0fc1d C05
+tools/fixrevert.sh 8458cab+7b0fc1d C05
 tools/fixrevert.sh ec5b90a+b88f452 C05
 tools/fixrevert.sh 42ad752 C05
 tools/fixrevert.sh ec5b90a C05
+tools/fixrevert.sh 8458cab C05
